@@ -305,6 +305,28 @@ fn c16_pairs(out: &mut Out, tier: &str, rng: &mut Rng) {
             out.note(&format!("pairs:n{}", n));
         }
     }
+    // constant streams of pairs: means exact, second-order sums exactly zero
+    for &k in &[1usize, 2, 3, 7, 100, 5000] {
+        for _ in 0..reps.min(4) {
+            if !out.next_case() { continue; }
+            let x = clamp_domain(rng.normal() * 10f64.powi(rng.below(40) as i32 - 20));
+            let y = clamp_domain(rng.normal() * 10f64.powi(rng.below(40) as i32 - 20));
+            let d = vec![(x, y); k];
+            let ctx = format!("constant stream of {} x ({:?},{:?})", k, x, y);
+            let mut c = Covariance::new();
+            pfeed(out, &mut c, &d, if k <= 7 { Trace::All } else { Trace::Sparse }, rng);
+            let accs = pobserve(out, &c);
+            out.x(c.mean_x() == x && c.mean_y() == y, || format!("Covariance means of {} are ({:?},{:?})", ctx, c.mean_x(), c.mean_y()));
+            for op in ["population_variance_x", "population_variance_y", "population_covariance"] { expect_f(out, "Covariance", &accs, op, "zero", k, &ctx); }
+            let dw: Vec<(f64, f64)> = (0..k).map(|i| (x, [1.0, 0.5, 3.0][i % 3])).collect();
+            let mut w = WeightedMeanWithError::new();
+            pfeed(out, &mut w, &dw, if k <= 7 { Trace::All } else { Trace::Sparse }, rng);
+            let aw = pobserve(out, &w);
+            out.x(w.unweighted_mean() == x, || format!("unweighted mean of {} is {:?}", ctx, w.unweighted_mean()));
+            expect_f(out, "WMWE", &aw, "population_variance", "zero", k, &ctx);
+            if k >= 2 { expect_f(out, "WMWE", &aw, "variance_of_weighted_mean", "zero", k, &ctx); expect_f(out, "WMWE", &aw, "error", "zero", k, &ctx); }
+        }
+    }
     // Quantile
     for n in 0..=4usize {
         if !out.next_case() { continue; }
@@ -539,4 +561,38 @@ pub fn c20(out: &mut Out, tier: &str, rng: &mut Rng) {
         out.x(same(q.estimate(), q.quantile()), || "Quantile: estimate() differs from quantile()".to_string());
         out.t("Quantile", "estimate", &words(&q), "", &fw(q.estimate()));
     }
+}
+
+// ------------------------------------------------------------------ explicit replay (used for shrinking)
+
+fn replay_est<E: Est>(out: &mut Out, rng: &mut Rng, data: &[f64]) {
+    crate::props_mom::single_pass::<E>(out, data, Trace::All, rng, &|_| true);
+}
+fn replay_pair<E: PairEst>(out: &mut Out, rng: &mut Rng, data: &[f64], kind: &str) {
+    let pairs: Vec<(f64, f64)> = data.chunks(2).filter(|c| c.len() == 2).map(|c| (c[0], c[1])).collect();
+    if !out.next_case() { return; }
+    let mut e = E::new();
+    pfeed(out, &mut e, &pairs, Trace::All, rng);
+    let accs = pobserve(out, &e);
+    crate::props_pair::oracle_pairs_pub(out, kind, &pairs, &accs);
+}
+
+/// feed `data` one observation at a time to the named estimator and emit its protocol lines
+pub fn replay_data(out: &mut Out, rng: &mut Rng, ty: &str, data: &[f64]) -> bool {
+    match ty {
+        "Mean" => replay_est::<average::Mean>(out, rng, data),
+        "Variance" => replay_est::<average::Variance>(out, rng, data),
+        "Skewness" => replay_est::<average::Skewness>(out, rng, data),
+        "Kurtosis" => replay_est::<average::Kurtosis>(out, rng, data),
+        "M4" => replay_est::<average::Moments4>(out, rng, data),
+        "M5" => replay_est::<M5>(out, rng, data),
+        "M6" => replay_est::<M6>(out, rng, data),
+        "M8" => replay_est::<M8>(out, rng, data),
+        "M10" => replay_est::<M10>(out, rng, data),
+        "WeightedMean" => replay_pair::<WeightedMean>(out, rng, data, "wt"),
+        "WMWE" => replay_pair::<WeightedMeanWithError>(out, rng, data, "wt"),
+        "Covariance" => replay_pair::<Covariance>(out, rng, data, "pair"),
+        _ => return false,
+    }
+    true
 }
